@@ -484,6 +484,23 @@ class BuiltinMixin:
             n = z3.If(it.length < n, it.length, n)
         yield self.iter_value(Iter(z3.simplify(n), lambda i, s: VTuple([it.get(i, s) for it in its]), "zip")), st
 
+    def bi_zip_longest(self, args, kwargs, st):
+        """itertools.zip_longest(a, b, ...) without fillvalue: as many tuples as the longest argument, None where an
+        argument is exhausted (built-in contract)"""
+        from .exec_call import Iter
+
+        if kwargs:
+            raise Unsupported("zip_longest with fillvalue")
+        its = [self.make_iter(a, st) for a in args]
+        n = its[0].length
+        for it in its[1:]:
+            n = z3.If(it.length > n, it.length, n)
+
+        def get(i, s):
+            return VTuple([self.merge(i < it.length, it.get(i, s), V(NONE, None), s) for it in its])
+
+        yield self.iter_value(Iter(z3.simplify(n), get, "zip_longest")), st
+
     def bi_enumerate(self, args, kwargs, st):
         from .exec_call import Iter
 
